@@ -111,7 +111,7 @@ def match_known(finding, known):
     return None
 
 
-MULTI_ALLOC_MARKS = ("n_bx_ow", "n_rt_ow", "n_bx_po", "bx_pm", "bx_pr", "rt_pm", "rf_pr", "ow_pm", "dupw_", "_owned", "na_dbgpanic",
+MULTI_ALLOC_MARKS = ("rf7_", "n_bx_ow", "n_rt_ow", "n_bx_po", "bx_pm", "bx_pr", "rt_pm", "rf_pr", "ow_pm", "dupw_", "_owned", "na_dbgpanic",
                      "drop_boxed_reject", "drop_retry_reject")
 
 
